@@ -119,7 +119,7 @@ def opts(tier):
         add_sensor(rng, spec, ctype, 0.15)
         add_scaling(rng, spec, ctype, p=0.8)
     o.scaling = scaling
-    return o
+    return gen.deepen(o, tier)
 
 
 def daqmx_scaled_world(rng):
